@@ -461,6 +461,7 @@ type FnCtx struct {
 	preVals  map[ssa.Value]Val
 	callContracts map[ssa.Instruction]*Contract
 	funcVals []funcVal
+	debugNames map[string]Val
 	synthN   int
 	rangeN   int
 	lockSnap map[string]*State
